@@ -2,6 +2,7 @@ package props
 
 import (
 	"fmt"
+	"github.com/cosmos/gogoproto/proto"
 	"math/big"
 	"strings"
 
@@ -140,6 +141,25 @@ func (w *JobWorld) byzEvidence(vi int) func(string, *consensustypes.MessageWithS
 			return TxProof(ch.Txs[ch.TxOrder[t.Intn(len(ch.TxOrder))]])
 		}
 	}
+}
+
+// stripReceipt is a colluding lie: every Byzantine attester submits the relayed transaction without its receipt
+// (byte-identical among the colluders, so that they can form a quorum on it).
+func (w *JobWorld) stripReceipt(chain string, m *consensustypes.MessageWithSignatures, honest *codectypes.Any) *codectypes.Any {
+	if honest == nil {
+		return nil
+	}
+	var ev consensustypes.ConsensusMsg
+	_ = ev
+	var proof evmtypes.TxExecutedProof
+	if honest.TypeUrl != "/"+proto.MessageName(&proof) {
+		return honest
+	}
+	if err := proof.Unmarshal(honest.Value); err != nil {
+		return honest
+	}
+	w.R.Stats.Fault("evidence_receipt_stripped")
+	return mustAny(&evmtypes.TxExecutedProof{SerializedTX: proof.SerializedTX})
 }
 
 // byzEstimate implements Hooks.Estimate with boundary values over the whole uint64 range.
